@@ -583,4 +583,76 @@ Section Kraus.
   Qed.
   Theorem kinv_run b ops t : kinv t -> kinv (krun b ops t).
   Proof. intro H. unfold krun. apply (kinv_fold 8 b (kinv_step b 8)). exact H. Qed.
+
+  (* ---- lanes that do not exist yet hold |0>: the amplitude vanishes wherever such a lane reads 1 ---- *)
+  Definition ksupp (n : nat) (t : kst) : Prop := forall u, (u < n)%nat -> kex t u = false -> forall x, x u = true -> kpsi t x = rO.
+  Lemma ksupp_setk n t k : ksupp n t -> ksupp n (ksetk t k). Proof. intro H; exact H. Qed.
+  Lemma ksupp_setcol n t q c : ksupp n t -> ksupp n (ksetcol t q c). Proof. intro H; exact H. Qed.
+  Lemma ksupp_fail n t : ksupp n t -> ksupp n (kfail t). Proof. intro H; exact H. Qed.
+  Lemma ksupp_cnt n t nr ns ne nc rq : ksupp n t -> ksupp n (kcnt t nr ns ne nc rq). Proof. intro H; exact H. Qed.
+  Lemma ksupp_setex n t q : ksupp n t -> ksupp n (ksetex t q).
+  Proof.
+    intros H u Hn Hu x Hx. cbn [kex kpsi ksetex] in *. unfold fupd in Hu. destruct (Nat.eqb u q); [discriminate | apply (H u Hn Hu x Hx)].
+  Qed.
+  Lemma ksupp_ensure n t q : ksupp n t -> ksupp n (kensure t q).
+  Proof. intro H. unfold kensure. destruct (kex t q); [exact H|]. apply ksupp_setcol, ksupp_setex, ksupp_setk. exact H. Qed.
+  Lemma ksupp_app1 n t M q : ksupp n t -> kex t q = true -> ksupp n (ksetpsi t (aapp1 M q (kpsi t))).
+  Proof.
+    intros H Hq u Hn Hu x Hx. cbn [kex kpsi ksetpsi] in *.
+    assert (Huq : q <> u) by (intro; subst u; congruence).
+    unfold Amp.app1, Amp.sum2. rewrite !(H u Hn Hu) by (rewrite (upd_other x q u) by exact Huq; exact Hx). ring.
+  Qed.
+  Lemma ksupp_app2 n t M a c : ksupp n t -> kex t a = true -> kex t c = true -> ksupp n (ksetpsi t (aapp2 M a c (kpsi t))).
+  Proof.
+    intros H Ha Hc u Hn Hu x Hx. cbn [kex kpsi ksetpsi] in *.
+    assert (Hua : a <> u) by (intro; subst u; congruence). assert (Huc : c <> u) by (intro; subst u; congruence).
+    unfold Amp.app2, Amp.sum2. rewrite !(H u Hn Hu) by (rewrite (upd_other _ c u) by exact Huc; rewrite (upd_other x a u) by exact Hua; exact Hx). ring.
+  Qed.
+  Lemma kensure_ex_mono t q u : kex t u = true -> kex (kensure t q) u = true.
+  Proof.
+    intro H. unfold kensure. destruct (kex t q); [exact H|]. cbn [kex ksetcol ksetex ksetk]. unfold fupd. destruct (Nat.eqb u q); [reflexivity | exact H].
+  Qed.
+  Lemma ksupp_do_meas n b t q silent : ksupp n t -> ksupp n (kdo_meas b t q silent).
+  Proof.
+    intro H. unfold kdo_meas. pose proof (ksupp_ensure n t q H) as He. pose proof (kensure_ex t q) as Hex.
+    set (u := kensure t q) in *. destruct silent; apply ksupp_cnt, ksupp_setcol, ksupp_setk, ksupp_app1; assumption.
+  Qed.
+  Lemma ksupp_do_err n b t c q idx : ksupp n t -> ksupp n (kdo_err b t c q idx).
+  Proof.
+    intro H. unfold kdo_err. apply ksupp_setcol. destruct (bit (berr b) idx); [apply ksupp_app1; [apply ksupp_ensure; exact H | apply kensure_ex] | apply ksupp_ensure; exact H].
+  Qed.
+  Lemma kdo_meas_ex b t q silent : kex (kdo_meas b t q silent) q = true.
+  Proof. unfold kdo_meas. destruct silent; cbn [kex kcnt ksetcol ksetk ksetpsi]; apply kensure_ex. Qed.
+  Lemma ksupp_fold n f b : (forall o t, ksupp n t -> ksupp n (kstep f b t o)) -> forall body t, ksupp n t -> ksupp n (fold_left (kstep f b) body t).
+  Proof. intros IH body. induction body as [|o body IHb]; intros t H; cbn [fold_left]; [exact H | apply IHb, IH, H]. Qed.
+  Theorem ksupp_step n b fuel : forall o t, ksupp n t -> ksupp n (kstep fuel b t o).
+  Proof.
+    induction fuel as [|f IHf]; intros o t H.
+    all: destruct o as [c q e | c q rel corr | q | is_cx ctl tgt cc | a c | q | q p silent restore | q trace | e | k | ch | k | p | q body |]; cbn [kstep].
+    all: try (apply ksupp_setcol, ksupp_app1; [apply ksupp_ensure; exact H | apply kensure_ex]).
+    all: try (apply ksupp_do_err; exact H).
+    all: try (apply ksupp_app1; [apply ksupp_ensure; exact H | apply kensure_ex]).
+    all: try (apply ksupp_ensure; exact H).
+    all: try exact H.
+    all: try (apply ksupp_fail; exact H).
+    all: try match goal with |- ksupp _ (kfinalize _) => unfold kfinalize; destruct (kncorr t); exact H end.
+    all: try match goal with |- context [sw4] =>
+      apply ksupp_setcol, ksupp_setcol, ksupp_app2; [apply ksupp_ensure, ksupp_ensure; exact H | apply kensure_ex_mono, kensure_ex | apply kensure_ex] end.
+    all: try match goal with |- context [Qcompare 0 ?pp] =>
+      destruct (Qcompare 0 pp); cbv zeta; try (apply ksupp_do_meas; exact H);
+      match goal with |- ksupp ?nn (kcnt ?u _ _ _ _ _) => assert (Hu : ksupp nn u) by (destruct restore; [apply ksupp_do_err|]; apply ksupp_do_meas, ksupp_do_err; exact H); exact Hu end end.
+    all: try match goal with |- context [cutf] =>
+      destruct (negb (kex t q)) eqn:Eq; [apply ksupp_setcol, ksupp_setex; exact H|]; cbv zeta; apply ksupp_setcol;
+      match goal with |- ksupp ?nn (match kcol ?u ?qq with _ => _ end) =>
+        assert (Hu : ksupp nn u /\ kex u qq = true) by (destruct trace; [split; [apply ksupp_do_meas; exact H | apply kdo_meas_ex] | split; [exact H | apply negb_false_iff; exact Eq]]);
+        destruct Hu as [Hu1 Hu2]; destruct (kcol u qq); apply ksupp_app1; assumption end end.
+    all: try match goal with |- context [fold_left] => destruct (kex t q); [apply (ksupp_fold n f b IHf); exact H | exact H] end.
+    all: destruct cc as [[c0 c1]|]; [|apply ksupp_setcol, ksupp_setcol, ksupp_app2; [apply ksupp_ensure, ksupp_ensure; exact H | apply kensure_ex_mono, kensure_ex | apply kensure_ex]].
+    all: destruct c0, c1, is_cx; cbn [andb negb]; try (apply ksupp_fail; exact H);
+      try (apply ksupp_setcol, ksupp_setcol, ksupp_app2; [apply ksupp_ensure, ksupp_ensure; exact H | apply kensure_ex_mono, kensure_ex | apply kensure_ex]);
+      (apply ksupp_setcol, ksupp_setcol; match goal with |- context [bit (brec ?bb) ?i] => destruct (bit (brec bb) i) end;
+       [apply ksupp_app1; [apply ksupp_ensure, ksupp_ensure; exact H | apply kensure_ex] | apply ksupp_ensure, ksupp_ensure; exact H]).
+  Qed.
+  Theorem ksupp_run n b ops t : ksupp n t -> ksupp n (krun b ops t).
+  Proof. intro H. unfold krun. apply (ksupp_fold n 8 b (ksupp_step n b 8)). exact H. Qed.
 End Kraus.
